@@ -37,7 +37,16 @@ pub fn check_program(out: &mut Out, ast: &Ast, model: &Model, r: &mut Rng) {
     let i_mut = exec::run_impl(&src, Some(&tree), model, Entry::TreeMut, true);
     let i_imm = exec::run_impl(&src, Some(&tree), model, Entry::TreeImm, true);
     let i_imm_s = exec::run_impl(&src, None, model, Entry::StrImm, false);
-    out.evals(3);
+    let i_mut_s = exec::run_impl(&src, None, model, Entry::StrMut, false);
+    out.evals(4);
+    if !i_mut_s.got.same(&i_mut.got) || !api::same_vars(&i_mut_s.vars_after, &i_mut.vars_after) {
+        out.violation(
+            "readonly/mutable-string-entry-differs-from-mutable-tree-entry",
+            format!("{}   [initial context {}]", src, model.show_vars()),
+            format!("{} ; final {}", i_mut.got.show(), api::show_vars(&i_mut.vars_after)),
+            format!("{} ; final {}", i_mut_s.got.show(), api::show_vars(&i_mut_s.vars_after)),
+        );
+    }
     let describe = || format!("{}   [initial context {}; builtins {}]", src, model.show_vars(), if model.builtins_off { "off" } else { "on" });
     out.nontrivial(&format!("{}|{}", src, model.show_vars()));
     out.count(if r_mut.run.assign_reached { "programs reaching an assignment" } else { "programs without a reached assignment" });
